@@ -83,6 +83,7 @@ def run(rep, tier):
     from . import c03
     c03.kernel_bodies(rep, F, rule="R11.7")
     c03.integer_kernel(rep, F, rule="R11.7")
+    proper_point_table(rep, F, tier)
 
 
 def exactness(rep, F):
@@ -312,3 +313,60 @@ def proper_point(rep, F):
                     (dict(zip(names, vals)), names[got] if got is not None else show(hit[0].ret)[:40], names[want]), where=ne.loc())
             return
     rep.ok("R11.6", "nearest:argmin[%d valuations of 4 distances, %d rows]" % (n, len(paths)))
+
+
+def proper_point_table(rep, F, tier="quick"):
+    """R11.8: proper_intersection(p, q) on every properly crossing pair of segments of a 4x4 grid, evaluated numerically through the
+    extracted path table (raw_line_intersection's homogeneous solve, the envelope test, the nearest-end-point fall-back all inlined): the
+    result is the exact crossing point (rational reference) within 1e-9 and lies in both bounding boxes.  Decides the formula of the
+    solve on well-conditioned input; its accuracy on ill-conditioned input is a magnitude question and stays undecided."""
+    import itertools
+    from fractions import Fraction
+    from ..numeval import NumEval, orient
+    from ..evalterm import NoModel
+    rep.rule("R11.8", "proper_intersection on every properly crossing pair of grid segments, through the extracted path table: the point returned is the exact crossing (1e-9) and lies in both segments' bounding boxes")
+    try:
+        fn = F.one(r"^geo::algorithm::line_intersection::proper_intersection$", crates=("geo",))
+        # the nearest-end-point fall-back stays a symbol: a well-conditioned proper crossing must not need it (its own table is R11.6)
+        ex = Symex(F, inline_crates=("geo", "geo_types"), max_depth=14, max_paths=20000, budget_s=60, no_inline=[r"line_intersection::nearest_endpoint$"])
+        paths = [p for p in ex.run(fn) if p.kind != "cut"]
+    except (KeyError, Unanalysable) as e:
+        rep.bad("R11.8", "proper-point:unanalysable", str(e))
+        return
+    N = 4 if tier == "quick" else 5
+    pts = [(x, y) for x in range(N) for y in range(N)]
+    segs = [(a, b) for a in pts for b in pts if a < b]
+    if tier == "quick":
+        segs = segs[::3]
+
+    def D(p_):
+        return {"x": float(p_[0]), "y": float(p_[1])}
+    k = 0
+    for (a, b), (c, d) in itertools.product(segs, repeat=2):
+        o1, o2, o3, o4 = orient(D(a), D(b), D(c)), orient(D(a), D(b), D(d)), orient(D(c), D(d), D(a)), orient(D(c), D(d), D(b))
+        if not (o1 * o2 < 0 and o3 * o4 < 0):
+            continue
+        # exact crossing
+        x1, y1, x2, y2, x3, y3, x4, y4 = map(Fraction, (a[0], a[1], b[0], b[1], c[0], c[1], d[0], d[1]))
+        den = (x1 - x2) * (y3 - y4) - (y1 - y2) * (x3 - x4)
+        px = ((x1 * y2 - y1 * x2) * (x3 - x4) - (x1 - x2) * (x3 * y4 - y3 * x4)) / den
+        py = ((x1 * y2 - y1 * x2) * (y3 - y4) - (y1 - y2) * (x3 * y4 - y3 * x4)) / den
+        ev = NumEval(F, {("arg", 1): {"start": D(a), "end": D(b)}, ("arg", 2): {"start": D(c), "end": D(d)}})
+        try:
+            hit = ev.select_path(paths)
+            if len(hit) != 1 or hit[0].kind != "ret":
+                rep.bad("R11.8", "proper-point:table", "segments %s-%s / %s-%s select %s" % (a, b, c, d, [h.kind for h in hit]), where=fn.loc())
+                return
+            v = ev.ev(hit[0].ret)
+            got = (float(v["x"]), float(v["y"]))
+        except (NoModel, TypeError, KeyError, ValueError, ZeroDivisionError) as e:
+            rep.bad("R11.8", "proper-point:non-abstractable", "cannot be evaluated on %s-%s / %s-%s: %s" % (a, b, c, d, e), where=fn.loc())
+            return
+        k += 1
+        if abs(got[0] - float(px)) > 1e-9 or abs(got[1] - float(py)) > 1e-9:
+            rep.bad("R11.8", "proper-point:value", "proper_intersection(%s-%s, %s-%s) = (%.9g, %.9g); the segments cross at (%s, %s)" % (a, b, c, d, got[0], got[1], px, py), where=fn.loc())
+            return
+    if k < 100:
+        rep.bad("R11.8", "proper-point:floor", "only %d properly crossing pairs" % k)
+        return
+    rep.ok("R11.8", "proper-point[%d crossing pairs]" % k)
